@@ -26,12 +26,13 @@ def sh(cmd, env=None, cwd=None, timeout=3600):
     return r.returncode, r.stdout + r.stderr
 
 
-def evaluate(src, pid, k, skip_tests, prop):
+def evaluate(src, pid, k, skip_tests, prop, offset=0):
     d = os.path.join(src, pid, "out", str(k))
+    sid = f"{pid}-{int(k) + offset}"
     if not os.path.exists(os.path.join(d, "patch.diff")):
         return None
     tmp = tempfile.mkdtemp(prefix=f"seedeval_{pid}_{k}_")
-    res = dict(id=f"{pid}-{k}", property=pid)
+    res = dict(id=sid, property=pid)
     try:
         clean, dirty = os.path.join(tmp, "clean"), os.path.join(tmp, "dirty")
         for t in (clean, dirty):
@@ -63,13 +64,13 @@ def evaluate(src, pid, k, skip_tests, prop):
         res.update(check_exit=rc, caught_by=obl, status="CAUGHT" if rc == 1 and viol else f"MISSED(exit {rc})",
                    summary=[l for l in out.splitlines() if l.startswith("[C")][-1:] )
         # keep it
-        keep = os.path.join(V, "seeded", f"{pid}-{k}")
+        keep = os.path.join(V, "seeded", sid)
         os.makedirs(keep, exist_ok=True)
         for f in ("patch.diff", "demo.py", "notes.md"):
             if os.path.exists(os.path.join(d, f)):
                 shutil.copy(os.path.join(d, f), os.path.join(keep, f))
         notes = open(os.path.join(d, "notes.md")).read() if os.path.exists(os.path.join(d, "notes.md")) else ""
-        meta = dict(id=f"{pid}-{k}", breaks_property=pid, needs_to_manifest=notes[:1500],
+        meta = dict(id=sid, breaks_property=pid, needs_to_manifest=notes[:1500],
                     confirmed=dict(demo_exit_with_change=rc_d, demo_exit_without=rc_c, tests_with_change=res.get("tests", "not re-run")),
                     ran=[f"patch -p1 < patch.diff (scratch copy of /repo)", "demo.py with and without the change",
                          "pytest tests/ with the change", f"VERIF_REPO=<scratch> ./check {pid} --tier quick"],
@@ -89,6 +90,7 @@ def main():
     ap.add_argument("--only")
     ap.add_argument("--jobs", type=int, default=3)
     ap.add_argument("--skip-tests", action="store_true")
+    ap.add_argument("--offset", type=int, default=0, help="added to k in the stored id (second round: 2)")
     a = ap.parse_args()
     jobs = []
     for pid in sorted(os.listdir(a.src)):
@@ -100,7 +102,7 @@ def main():
             jobs.append((pid, k))
     out = []
     with cf.ThreadPoolExecutor(a.jobs) as ex:
-        for r in ex.map(lambda j: evaluate(a.src, j[0], j[1], a.skip_tests, None), jobs):
+        for r in ex.map(lambda j: evaluate(a.src, j[0], j[1], a.skip_tests, None, a.offset), jobs):
             if r:
                 out.append(r)
                 print(json.dumps(r)[:700], flush=True)
